@@ -96,12 +96,13 @@ def ob_fail(f: int, n1: int, pos0: int, pos1: int, pk: int) -> bool:
     if K < 2 or H.P("stmt"):
         H.assume(n1 == 4 and pk <= 1)
     else:
-        H.assume(n1 == 4 or n1 == 1)
+        H.assume(n1 == 4)
     if K < 2:
         H.assume(pos1 == -1)
     else:
-        H.assume(pos1 == -1 or pos0 < pos1)
+        H.assume(pos1 == -1 or (pos0 < pos1 and pos1 % 3 == 0))
         H.assume(pos0 != -1 or pos1 == -1)
+        H.assume(pk <= 1)
     ff = H.select(f, 0, n0 - 1)
     nn1 = H.select(n1, 0, 4)
     p0 = H.select_bisect(pos0, -1, steps)
@@ -213,7 +214,7 @@ def obligations(tier, seed):
               ("loky", "generator", True), ("stub_noabort", "list", True), ("stub_noabort", "generator_unordered", False)]
     for be, ra, uw in blocks:
         obs.append({"name": "fail/%s/%s/with=%s" % (be, ra, uw), "fn": "ob_fail", "mode": "S",
-                    "params": {"backend": be, "return_as": ra, "use_with": uw, "K": K, "n0": 6 if tier == "quick" else 7,
+                    "params": {"backend": be, "return_as": ra, "use_with": uw, "K": K, "n0": 6 if tier == "quick" else 5,
                                "pre_dispatch": 2}, "timeout": 600 if tier == "quick" else 3400,
                     "bounds": "call 0: 6 tasks, failing task at any index; <=%d pre-emptions anywhere; 2x2 completion picks; "
                               "call 1: 1 or 4 tasks on the same object" % K})
